@@ -112,6 +112,16 @@ def feedTrace : Insp → List Bytes → List String → Insp × Option Err × Li
     | (s1, some e) => (s1, some e, ((showState s1 ++ " err=" ++ showErr e) :: tr).reverse)
     | (s1, none) => feedTrace s1 cs (showState s1 :: tr)
 
+/-- feed with a trace after every chunk, CONTINUING after an error with the state `eatChunk` left
+    (a caller that catches the exception and keeps feeding the same inspector); the error reported at
+    the end is the first one -/
+def feedTraceK : Insp → List Bytes → Option Err → List String → Insp × Option Err × List String
+  | s, [], first, tr => (s, first, tr.reverse)
+  | s, c :: cs, first, tr =>
+    match eatChunk s c with
+    | (s1, some e) => feedTraceK s1 cs (first.orElse (fun _ => some e)) ((showState s1 ++ " err=" ++ showErr e) :: tr)
+    | (s1, none) => feedTraceK s1 cs first (showState s1 :: tr)
+
 def showFmtRes : Except Err (Option Insp) → String
   | .error e => "EXC:" ++ showErr e
   | .ok none => "None"
@@ -174,6 +184,17 @@ def handle : List String → String
           (if tr = "1" then String.intercalate "|" trace ++ "\t" else "") ++
             showState s1.finish ++ "\t" ++ showVerdict s1.finish e
     | _, _ => "bad-request"
+  -- inspk <fmt> <content> <sizes> <trace 0|1>: like insp, but feeding continues after an error
+  | ["inspk", f, content, sizes, tr] =>
+    match Fmt.ofName? f, parseContent content, parseNats sizes with
+    | some f, some b, some sz =>
+      match Insp.init f with
+      | none => "init-error"
+      | some s0 =>
+        let (s1, e, trace) := feedTraceK s0 (cut b sz) none []
+        (if tr = "1" then String.intercalate "|" trace ++ "\t" else "") ++
+          showState s1.finish ++ "\t" ++ showVerdict s1.finish e
+    | _, _, _ => "bad-request"
   -- insp <fmt> <content> <sizes> <trace 0|1>
   | ["insp", f, content, sizes, tr] =>
     match Fmt.ofName? f, parseContent content, parseNats sizes with
